@@ -298,6 +298,61 @@ fn skeletons(src: &mut Src) -> Result<String, String> {
     Ok(o)
 }
 
+// ---------------------------------------------------------------- G9 store kinds and pinned cell primitives
+
+/// Classifies the body of a per-slot / per-slice store closure `f` of the producer.
+fn classify_store(b: &syn::Block) -> Result<String, String> {
+    let txt = { let mut t = String::new(); for st in &b.stmts { t.push_str(&quote::quote!(#st).to_string().replace(' ', "")); } t };
+    // strip one level of `unsafe { .. }`
+    let t = txt.strip_prefix("unsafe{").and_then(|x| x.strip_suffix('}')).unwrap_or(&txt).to_string();
+    let norm = |x: &str| x.replace("binding_h", "binding").replace("(xas*mutT)", "P").replace("xas*mutT", "P");
+    let t = norm(&t);
+    Ok(match t.as_str() {
+        "*binding=value;" => ".assign".into(),
+        "ifUnsafeSyncCell::check_zeroed(binding){binding.write(value);}else{*binding=value;}" => ".initBranch".into(),
+        "copy_from_slice_unchecked(slice,binding);" => ".copyAll".into(),
+        "binding.clone_from_slice(slice);" => ".cloneAll".into(),
+        "for(x,y)inbinding.iter_mut().zip(slice){ifUnsafeSyncCell::check_zeroedP{unsafe{P.write(*y);}}else{*x=*y;}}" => ".perSlotInitCopy".into(),
+        "for(x,y)inbinding.iter_mut().zip(slice){ifUnsafeSyncCell::check_zeroedP{unsafe{P.write(y.clone());}}else{x.clone_from(y);}}" => ".perSlotInitClone".into(),
+        other => format!("(.other \"{}\")", other.replace('\\', "").replace('"', "'")),
+    })
+}
+
+fn store_kinds(src: &mut Src) -> Result<String, String> {
+    let file = src.file("src/iterators/sync_iterators/prod_iter.rs")?;
+    let mut o = String::new();
+    for (func, lean) in [("push", "storePush"), ("push_init", "storePushInit"), ("push_slice", "storePushSlice"), ("push_slice_init", "storePushSliceInit"),
+                         ("push_slice_clone", "storePushSliceClone"), ("push_slice_clone_init", "storePushSliceCloneInit")] {
+        let f = find_fn(file, "ProdIter<'buf,B>", func).ok_or(format!("fn `{func}` not found"))?;
+        // the nested `fn f(..) { .. }`
+        let mut inner = None;
+        for st in &f.block.stmts { if let Stmt::Item(syn::Item::Fn(g)) = st { if g.sig.ident == "f" { inner = Some(&g.block); } } }
+        let b = inner.ok_or(format!("`{func}` has no nested store function `f`"))?;
+        o.push_str(&format!("def {lean} : StoreKind := {}\n", classify_store(b)?));
+    }
+    Ok(o)
+}
+
+/// Normalised source text of a few tiny functions whose exact shape the model depends on.
+fn pins(src: &mut Src) -> Result<String, String> {
+    let mut o = String::new();
+    let cell = "src/ring_buffer/wrappers/unsafe_sync_cell.rs";
+    for (path, owner, func, lean) in [
+        (cell, "UnsafeSyncCell<T>", "check_zeroed", "pinCheckZeroed"),
+        (cell, "UnsafeSyncCell<T>", "take_inner", "pinTakeInner"),
+        (cell, "UnsafeSyncCell<T>", "inner_duplicate", "pinInnerDuplicate"),
+        (cell, "DropforUnsafeSyncCell<T>", "drop", "pinCellDrop"),
+        ("src/iterators/mod.rs", "", "copy_from_slice_unchecked", "pinCopyFromSlice"),
+    ] {
+        let file = src.file(path)?;
+        let f = find_fn(file, owner, func).ok_or(format!("fn `{func}` of `{owner}` not found"))?;
+        let b = f.block;
+        let t = quote::quote!(#b).to_string().replace(' ', "").replace('"', "'");
+        o.push_str(&format!("def {lean} : String := \"{t}\"\n"));
+    }
+    Ok(o)
+}
+
 pub fn table_items(src: &mut Src, items: &mut Vec<Item>) {
     let mut add = |name: &str, origin: &str, body: Result<String, String>| {
         items.push(Item { name: name.into(), file: "Tables", origin: origin.into(), body });
@@ -306,4 +361,6 @@ pub fn table_items(src: &mut Src, items: &mut Vec<Item>) {
     add("concAcc", "src/ring_buffer/variants/concurrent_rb.rs::IterManager", accessors(src, "src/ring_buffer/variants/concurrent_rb.rs", "ConcurrentMutRingBuf<S>", "concAcc"));
     add("localAcc", "src/ring_buffer/variants/local_rb.rs::IterManager", accessors(src, "src/ring_buffer/variants/local_rb.rs", "LocalMutRingBuf<S>", "localAcc"));
     add("skeletons", "call order of the composite operations", skeletons(src));
+    add("storeKinds", "src/iterators/sync_iterators/prod_iter.rs: the store each push form performs", store_kinds(src));
+    add("pins", "cell primitives (check_zeroed, take_inner, inner_duplicate, Drop) and copy_from_slice_unchecked", pins(src));
 }
